@@ -133,10 +133,11 @@ var replayers = map[string]func(*Model, json.RawMessage) []Diff{}
 // runCases runs plain differential cases in parallel and records them.
 func runCases(rep *Report, cases []Case, workers int, nontrivial func(Case) bool) {
 	parallel(cases, workers, func(m *Model, c Case) {
-		diffs := runCase(m, c)
+		diffs, realv := runCaseR(m, c)
 		key := caseKey(c)
 		rep.Record(c, key, nontrivial(c), diffs)
 		rep.Count("kind:" + c.Kind + ifs(c.Mode != "", "/"+c.Mode, "") + ifs(c.Format != "", "/"+c.Format, ""))
+		rep.Count("result:" + resultClass(realv))
 	})
 }
 
@@ -159,4 +160,13 @@ func sortedKeys(m map[string]int) []string {
 	}
 	sort.Strings(ks)
 	return ks
+}
+
+// resultClass extracts the error class from a canonical result ("… e=<class>[:payload]").
+func resultClass(r string) string {
+	i := strings.LastIndex(r, "e=")
+	if i < 0 {
+		return "?"
+	}
+	return errClass(r[i+2:])
 }
